@@ -68,7 +68,7 @@ inline Plan decode_plan(const ShapeDesc& sd, vk::Choice& c) {
     if (leaf_kind[(size_t)l] == 1 && s.on_stop == 2) s.on_stop = 1;   // an always_inline leaf may only complete inside start()
     if (leaf_kind[(size_t)l] == 2) { s.on_stop = 0; for (auto& at : s.attempts) if (at.timing == 2) at.timing = 1; }
     for (auto& at : s.attempts) if (at.timing == 2 && s.on_stop == 0) s.on_stop = 1;
-    if (exclude_embedded && embedded_src[(size_t)l] && s.on_stop == 1) { s.on_stop = 2; vk::ctx().label("altered-by-known-finding:stop_source_destroyed_in_callback"); }
+    if (exclude_embedded && embedded_src[(size_t)l] && s.on_stop == 1) { s.on_stop = leaf_kind[(size_t)l] == 1 ? 0 : 2; vk::ctx().label("altered-by-known-finding:stop_source_destroyed_in_callback"); }   // (an always_inline leaf cannot defer: it ignores the request and completes as planned)
     t += vk::sfmt("L%d{", l);
     for (auto& at : s.attempts) t += vk::sfmt("%s%s/%s/ctx%d ", sr::chan_name(at.chan), at.chan == sr::ERROR ? (at.errkind ? ":Err" : ":exc") : "", at.timing == 0 ? "inline" : at.timing == 1 ? "deferred" : "on-stop-only", at.ctx);
     t += vk::sfmt("on_stop=%s%s} ", s.on_stop == 0 ? "ignore" : s.on_stop == 1 ? "done-inline" : "done-deferred", s.stop_root_in_start ? " stops-root-in-start" : "");
@@ -97,7 +97,7 @@ inline Plan decode_plan(const ShapeDesc& sd, vk::Choice& c) {
   unsigned pp = c.upto(5); p.poison = pp < 4 ? pats[pp] : (uint8_t)c.upto(256);
   unsigned f = c.upto(20);
   if (f >= 12 && f < 17 && !callable_nodes.empty()) { p.fault_node = callable_nodes[c.upto((uint32_t)callable_nodes.size())]; p.fault_call = (int)c.upto(2); }
-  else if (f >= 17 || (f >= 9 && f < 12 && vk::ctx().argi("legacy", 0) == 0 && (vk::ctx().prop == "C02" || vk::ctx().prop == "C05"))) { p.anon_fault = (long)c.upto(48); }
+  else if (f >= 17 || (f >= 9 && f < 12 && vk::ctx().argi("legacy", 0) == 0 && (vk::ctx().prop == "C02" || vk::ctx().prop == "C05" || vk::ctx().prop == "C11"))) { p.anon_fault = (long)c.upto(48); }
   t += vk::sfmt("| stop:%s%s%s destroy_in_completion=%d%s poison=%02x", p.stop_before_start ? "before-start " : "", p.stop_tokens ? "as-event " : "", p.stop_after_completion ? "after-completion " : "", (int)p.destroy_on_completion, p.never_start ? " NEVER-STARTED" : "", p.poison);
   if (p.fault_node >= 0) t += vk::sfmt(" fault:callable(n%d,call%d)", p.fault_node, p.fault_call);
   if (p.anon_fault >= 0) t += vk::sfmt(" fault:throw-point#%ld", p.anon_fault);
